@@ -58,10 +58,10 @@ def maskMoments (mask : Arr Bool) : Nat × Nat × Nat :=
 section Coords
 variable [Add K] [Sub K] [Mul K] [Div K] [Neg K] [Zero K] [One K] [IntCast K] [NatCast K] [LT K] [DecidableRel (α := K) (· < ·)]
 
-/-- default `shift = centroid - shape // 2` -/
+/-- default `shift = centroid - shape // 2`: the REGENERATED `Gen.zShiftAxis` applied to the centroid of the mask -/
 def zShift (mask : Arr Bool) : K × K :=
   let mm := maskMoments mask
-  ((mm.2.1 : K) / (mm.1 : K) - ((mask.s0 / 2 : Int) : K), (mm.2.2 : K) / (mm.1 : K) - ((mask.s1 / 2 : Int) : K))
+  (Gen.zShiftAxis ((mm.2.1 : K) / (mm.1 : K)) mask.s0, Gen.zShiftAxis ((mm.2.2 : K) / (mm.1 : K)) mask.s1)
 
 /-- `rr`, `cc` of `helper.mesh(mask.shape, shift)` -/
 def zRR (mask : Arr Bool) (s : K × K) (i : Int) : K := meshCoord mask.s0 i s.1
